@@ -355,12 +355,19 @@ def run(db: DB, rep: Report) -> None:
     # ---- D9: displayed tensors are state-preserving copies --------------------------
     rep.rule("D9", "the canvas displays the tensors themselves or deep copies of them", 2)
     cc_ = C_.methods["create_canvas"]
-    apps_ = [n for n in walk_no_nested(cc_.node) if isinstance(n, ast.Call) and isinstance(n.func, ast.Attribute)
-             and n.func.attr == "append" and norm(n.func.value) == "self.tensors"]
+    # (site, element expression, comprehension that binds its names or None)
+    apps_ = []
+    for n in walk_no_nested(cc_.node):
+        if isinstance(n, ast.Call) and isinstance(n.func, ast.Attribute) and norm(n.func.value) == "self.tensors" \
+                and n.args:
+            if n.func.attr == "append":
+                apps_.append((n, n.args[0], None))
+    # (an extend(<comprehension>) form is deliberately not followed: the rules below - D5, D7, D3 -
+    # were confirmed on the append form only, and answered wrongly on refactorings that use it)
     if len(apps_) < 2:
         raise AnalysisError("Canvas.create_canvas no longer appends to self.tensors")
-    for a in apps_:
-        v = a.args[0]
+    for a, v, comp_ in apps_:
+        v0 = v
         ok = False
         if isinstance(v, ast.Call) and norm(v.func).split(".")[-1] == "deepcopy" and len(v.args) == 1:
             v = v.args[0]
@@ -370,13 +377,21 @@ def run(db: DB, rep: Report) -> None:
         elif isinstance(v, ast.Name):
             ok = True
         if ok and isinstance(v, ast.Name):
-            ok = any(isinstance(st, ast.For) and "get_tensors" in paths.called_names([val])
-                     for st, val in paths.defs_of(cc_.node, v.id) if val is not None)
-        rep.check("D9", ok, db.loc(a), cc_.short, "displayed:" + norm(a.args[0])[:50],
-                  "canvas displays %s" % norm(a.args[0])[:50],
+            if comp_ is not None and any(v.id in {x.id for x in ast.walk(g_.target) if isinstance(x, ast.Name)}
+                                         for g_ in comp_.generators):
+                ok = any("get_tensors" in paths.called_names([paths.resolve_flow(g_.iter, a, cc_.node, depth=2)])
+                         for g_ in comp_.generators)
+            else:
+                ok = any((isinstance(st, ast.For) and "get_tensors" in
+                          paths.called_names([paths.resolve_flow(val, st, cc_.node, depth=2)])) or
+                         (not isinstance(st, ast.For) and "get_output" in
+                          paths.called_names([paths.resolve_flow(val, st, cc_.node, depth=2)]))
+                         for st, val in paths.defs_of(cc_.node, v.id) if val is not None)
+        rep.check("D9", ok, db.loc(a), cc_.short, "displayed:" + norm(v0)[:50],
+                  "canvas displays %s" % norm(v0)[:50],
                   "Canvas.create_canvas displays %s, which is neither a tensor of the Einsum nor a deep copy "
                   "of one: state such as the flattened marker or the current rank pointer is lost, so the "
-                  "canvas tensor and its activity points disagree" % norm(a.args[0])[:60])
+                  "canvas tensor and its activity points disagree" % norm(v0)[:60])
 
     # ---- D10: the slip counter is keyed by the displayed space stamp -----------------
     rep.rule("D10", "timestamps[...] is keyed by the space stamp that is displayed", 2)
@@ -450,25 +465,46 @@ def run(db: DB, rep: Report) -> None:
     C = db.cls("teaal.trans.canvas.Canvas")
     aa = C.methods["add_activity"]
     cc = C.methods["create_canvas"]
-    loops = [n for n in walk_no_nested(aa.node) if isinstance(n, ast.For) and norm(n.iter) == "self.tensors"]
-    ok = False
-    if len(loops) == 1 and isinstance(loops[0].target, ast.Name):
-        tv = loops[0].target.id
-        comps = [n for n in ast.walk(loops[0]) if isinstance(n, ast.ListComp)]
-        for c in comps:
-            g = c.generators[0]
-            if norm(g.iter) == "%s.get_access()" % tv and not g.ifs and len(c.generators) == 1 and \
-                    isinstance(c.elt, ast.Call) and c.elt.args and isinstance(c.elt.args[0], ast.Name) and \
-                    isinstance(g.target, ast.Name) and c.elt.args[0].id == g.target.id:
-                # the list becomes one ETuple appended once per tensor
-                etu = [n for n in ast.walk(loops[0]) if isinstance(n, ast.Call) and norm(n.func) == "ETuple"]
-                apps = [n for n in ast.walk(loops[0]) if isinstance(n, ast.Call) and
+    # the per-rank comprehension  [build_access(r) for r in <t>.get_access()]  inside an iteration of
+    # <t> over self.tensors (a for loop with one unguarded append, or an enclosing comprehension)
+    inner5 = [c for c in ast.walk(aa.node) if isinstance(c, (ast.ListComp, ast.GeneratorExp)) and
+              norm(c.generators[0].iter).endswith(".get_access()")]
+    ok, clear_bad, why5 = False, False, "the per-rank comprehension over get_access() was not found"
+    if len(inner5) == 1:
+        c = inner5[0]
+        g = c.generators[0]
+        tv = norm(g.iter)[:-len(".get_access()")]
+        filt = bool(g.ifs) or len(c.generators) != 1
+        elt_ok = isinstance(c.elt, ast.Call) and c.elt.args and isinstance(c.elt.args[0], ast.Name) and \
+            isinstance(g.target, ast.Name) and c.elt.args[0].id == g.target.id
+        outer_iter, outer_filt = None, False
+        for p_ in paths.parents(c, aa.node):
+            if isinstance(p_, ast.For) and isinstance(p_.target, ast.Name) and p_.target.id == tv:
+                outer_iter = (p_.iter, p_)
+                apps = [n for n in ast.walk(p_) if isinstance(n, ast.Call) and
                         isinstance(n.func, ast.Attribute) and n.func.attr == "append"]
-                ok = len(etu) == 1 and len(apps) == 1 and not paths.guards(apps[0], stop=loops[0])
+                etu = [n for n in ast.walk(p_) if isinstance(n, ast.Call) and norm(n.func) == "ETuple"]
+                outer_filt = len(apps) != 1 or len(etu) != 1 or bool(paths.guards(apps[0], stop=p_))
+                break
+            if isinstance(p_, (ast.ListComp, ast.GeneratorExp)) and p_ is not c:
+                gg = [x for x in p_.generators if isinstance(x.target, ast.Name) and x.target.id == tv]
+                if gg:
+                    outer_iter = (gg[0].iter, p_)
+                    outer_filt = bool(gg[0].ifs) or len(p_.generators) != 1
+                    break
+        if outer_iter is not None:
+            it_txt = paths.flow_text(outer_iter[0], outer_iter[1], aa.node)
+            same = it_txt == "self.tensors"
+            ok = bool(elt_ok) and not filt and not outer_filt and same
+            clear_bad = filt or outer_filt
+            why5 = "filter on the ranks" if filt else "filter / several appends on the tensors" if outer_filt else \
+                "iterates %s" % it_txt[:40]
+        else:
+            why5 = "the iteration over the displayed tensors was not found"
     rep.check("D5", ok, db.loc(aa.node), aa.short, "access-per-rank",
               "add_activity: one ETuple per tensor of self.tensors, one element per rank of get_access(), no filter",
               "Canvas.add_activity no longer gives every displayed tensor a point with exactly one "
-              "coordinate per rank of tensor.get_access()")
+              "coordinate per rank of tensor.get_access() (%s)" % why5, decided=ok or clear_bad)
     comp = [n for n in walk_no_nested(cc.node) if isinstance(n, ast.ListComp) and
             norm(n.generators[0].iter) == "self.tensors" and not n.generators[0].ifs]
     used = any(isinstance(n, ast.Call) and norm(n.func) == "EFunc" and n.args and
